@@ -137,6 +137,10 @@ def counts_small(case, body) -> bool:
     if case == 4 and len(body) >= 2:                 # ImprovedInstantMessage: BinaryBucket length (U16 LE)
         return (body[1] == 0 and body[0] <= 3) or (body[1] == 255 and body[0] == 255)
     if case == 5 and len(body) >= 1:                 # AgentAlertMessage: Message length (U8)
+        # text content bytes from {NUL, 'A', a UTF-8 lead byte, an invalid byte}: bytes.decode() realizes its operand
+        for i in range(1, len(body)):
+            if not (body[i] == 0 or body[i] == 0x41 or body[i] == 0xC3 or body[i] == 0xFF):
+                return False
         return body[0] <= 3 or body[0] == 255
     return True
 
@@ -171,7 +175,8 @@ def untouched_identity(case: int, fl: int, pid: bytes, extra: bytes, body: bytes
     return SER.serialize(msg) == d and msg.raw_body is not None
 
 
-@harness(pre=_PRE + ["0 <= order <= 2", "len(extra) <= 1", "fl < 3", "tl != 1"], post="_", timeout=400, thorough_timeout=1200,
+@harness(pre=_PRE + ["0 <= order <= 2", "len(extra) <= 1", "fl < 3", "tl != 1",
+                     "case != 5 or (fl < 2 and tl == 0 and len(extra) == 0)"], post="_", timeout=400, thorough_timeout=1200,
          note="parsed (lazily, lazily twice, or eagerly) and not zero-coded: whenever the body region is consumed exactly by "
               "the template (independent reference walker), re-encoding yields exactly the arriving bytes; in every case where "
               "parsing succeeds the re-encoded datagram decodes to an equal message",
